@@ -3801,6 +3801,25 @@ func (w *Writer) resolveRuntimeArrayInfo(baseHandle ir.ExpressionHandle) (runtim
 		return runtimeArrayInfo{}, false
 	}
 	expr := &w.currentFunction.Expressions[baseHandle]
+	if gv, ok := expr.Kind.(ir.ExprGlobalVariable); ok {
+		// The global itself is a runtime-sized array (var<storage> d: array<T>).
+		if int(gv.Variable) >= len(w.module.GlobalVariables) {
+			return runtimeArrayInfo{}, false
+		}
+		ty := w.module.GlobalVariables[gv.Variable].Type
+		if int(ty) >= len(w.module.Types) {
+			return runtimeArrayInfo{}, false
+		}
+		arr, ok := w.module.Types[ty].Inner.(ir.ArrayType)
+		if !ok || arr.Size.Constant != nil {
+			return runtimeArrayInfo{}, false
+		}
+		return runtimeArrayInfo{
+			globalIdx:    uint32(gv.Variable),
+			memberOffset: 0,
+			elemStride:   arr.Stride,
+		}, true
+	}
 	ai, ok := expr.Kind.(ir.ExprAccessIndex)
 	if !ok {
 		return runtimeArrayInfo{}, false
